@@ -149,6 +149,7 @@ func runC08(c *Check, w *World) {
 		}
 	}
 	ruleHistoryIndependence(c, w, tb, ef, "R08.H", f)
+	checkRESTEndpoints(c, w, tb, ef, "R08.REST", "/otp/secret")
 	c.Floor("R08.1", 3)
 	c.Floor("R08.2", 1)
 	c.Floor("R08.3", 1)
